@@ -68,6 +68,7 @@ struct Shared {
     forgotten: usize,
     got_calls: u64,
     poisoning_gets: u64,
+    scoped_rounds: u64,
 }
 
 static SHARED: StdMutex<Option<Shared>> = StdMutex::new(None);
@@ -92,6 +93,8 @@ struct Round {
     size: usize,
     forget: bool,
     yield_inside: bool,
+    /// the round's allocations happen inside a scope of the guard: chunks grow, nothing stays allocated
+    scoped: bool,
 }
 
 type S = BumpSettings<1, true, true, true, true, true, 1>;
@@ -137,7 +140,7 @@ where
         4 => Some(pool.get_with_capacity(Layout::from_size_align(r.size.max(1), 8).unwrap())),
         _ => pool.try_get_with_capacity(Layout::from_size_align(r.size.max(1), 8).unwrap()).ok(),
     } };
-    let Some(guard) = guard else {
+    let Some(mut guard) = guard else {
         CONSERVATIVE_LIVE.fetch_sub(1, SeqCst);
         return;
     };
@@ -153,7 +156,27 @@ where
         }
         s.events.push((r.thread, 0, id));
     });
-    for k in 0..r.nblocks {
+    if r.scoped {
+        // everything of this round lives in a scope: afterwards the arena may own several chunks with nothing allocated
+        let (nblocks, size, th) = (r.nblocks, r.size, r.thread);
+        let ok = guard.scoped(|s| {
+            let mut made: Vec<(*const u8, usize, u8)> = Vec::new();
+            for k in 0..nblocks + 1 {
+                let tag = (th * 41 + k * 13 + size) as u8;
+                let bytes: Vec<u8> = (0..size + 300 * k).map(|i| fill_byte(tag, i)).collect();
+                if let Ok(b) = s.try_alloc_slice_copy(&bytes) {
+                    let sl = b.into_ref();
+                    made.push((sl.as_ptr(), sl.len(), tag));
+                }
+            }
+            made.iter().all(|&(p, n, tag)| (0..n).all(|i| unsafe { *p.add(i) } == fill_byte(tag, i)))
+        });
+        if !ok {
+            viol("C19/data-changed", "a block allocated inside a scope of a pool guard changed before the scope ended".into());
+        }
+        shared(|s| s.scoped_rounds += 1);
+    }
+    for k in 0..if r.scoped { 0 } else { r.nblocks } {
         let tag = (r.thread * 37 + k * 11 + r.size) as u8;
         let bytes: Vec<u8> = (0..r.size + k).map(|i| fill_byte(tag, i)).collect();
         if r.yield_inside {
@@ -290,7 +313,7 @@ impl World for PoolWorld {
         for th in 0..threads {
             let rounds = if threads == 1 { 3 + r.below(6) } else { 1 + r.below(4) };
             for _ in 0..rounds {
-                t.ops.push(Op::new(K_ROUND, &[th, if threads == 1 && r.below(4) == 0 { 15 } else { r.below(6) }, r.below(4), *r.pick(&[1u64, 5, 24, 100, 400]), (r.below(20) == 0) as u64, r.below(2)]));
+                t.ops.push(Op::new(K_ROUND, &[th, if threads == 1 && r.below(4) == 0 { 15 } else { r.below(6) }, r.below(4), *r.pick(&[1u64, 5, 24, 100, 400]), (r.below(20) == 0) as u64 | if r.below(4) == 0 { 6 } else { 0 }, r.below(2)]));
             }
         }
         t.ops.push(Op::new(K_FINAL, &[r.below(3)]));
@@ -312,7 +335,7 @@ impl World for PoolWorld {
         for op in &trace.ops {
             if op.kind == K_ROUND {
                 let th = op.a[0] as usize % threads;
-                plan[th].push(Round { thread: th, variant: if threads > 1 && op.a[1] % 16 == 15 { 0 } else { op.a[1] }, nblocks: op.a[2] as usize % 5, size: op.a[3] as usize % 2000, forget: op.a[4] & 1 == 1, yield_inside: op.a[5] & 1 == 1 });
+                plan[th].push(Round { thread: th, variant: if threads > 1 && op.a[1] % 16 == 15 { 0 } else { op.a[1] }, nblocks: op.a[2] as usize % 5, size: op.a[3] as usize % 2000, forget: op.a[4] & 1 == 1, yield_inside: op.a[5] & 1 == 1, scoped: op.a[4] & 6 == 6 });
             } else {
                 fin = op.a[0];
             }
@@ -380,6 +403,9 @@ impl World for PoolWorld {
         }
         if sh.poisoning_gets > 0 {
             stats.probe("pool.get_panicked_inside_pool");
+        }
+        if sh.scoped_rounds > 0 {
+            stats.probe("pool.round_inside_scope");
         }
         let fired = heap::with(0, |h| h.fired);
         for (i, n) in fired.iter().enumerate() {
